@@ -126,6 +126,11 @@ func (w *watches) updatePath(path string, f func(*watch) (*watch, error)) error 
 
 		if upd.wd != wd {
 			delete(w.wd, wd)
+			if upd.path != path {
+				// The file at path is already watched under another
+				// name, which keeps the watch; path itself isn't listed.
+				delete(w.path, path)
+			}
 		}
 	}
 
@@ -264,6 +269,12 @@ func (w *inotify) register(path string, flags uint32, recurse bool) error {
 		wd, err := unix.InotifyAddWatch(w.fd, path, flags)
 		if wd == -1 {
 			return nil, err
+		}
+
+		if existing != nil && existing.wd != uint32(wd) {
+			// The path now refers to a different file: release the watch on
+			// the old one. It may be gone already, so ignore the result.
+			unix.InotifyRmWatch(w.fd, existing.wd)
 		}
 
 		if e, ok := w.watches.wd[uint32(wd)]; ok {
